@@ -203,4 +203,209 @@ Proof.
       cbn [map fst snd] in *. rewrite js_tjoin_cons in *. cbn [app] in *. exact Hp.
 Qed.
 
+(* ================================================================ Part 2: the lexer reads back the encoder's output *)
+(* binary64 printing/parsing (Grisu2 / strtod) are parameters; what the round trip needs from them: *)
+Hypothesis js_fparse_fprint : forall x, js_fparse (js_fprint x) = Some x.
+Hypothesis js_fprint_token : forall x rest,
+  match rest with [] => True | b :: _ => b = 44 \/ b = 93 \/ b = 125 end ->
+  js_lex_num (js_fprint x ++ rest) = Some (js_fprint x, false, rest).
+Hypothesis js_fprint_ascii : forall x, exists b t, js_fprint x = b :: t /\ (b = 45 \/ 48 <= b <= 57) /\ Forall (fun c => 0 <= c < 128) (b :: t).
+
+Definition js_delim (rest : list Z) : Prop := match rest with [] => True | b :: _ => b = 44 \/ b = 93 \/ b = 125 end.
+Definition js_lex_ok (rest : list Z) (ts : list T) : Prop :=
+  forall f, (length rest < f)%nat -> js_lex _ js_fparse f rest = Some ts.
+
+Lemma js_lex_ok_nil : js_lex_ok [] [].
+Proof. intros [|f] H; [cbn in H; lia|reflexivity]. Qed.
+
+Ltac lex_char := let H := fresh in let f := fresh in let Hf := fresh in
+  intros H f Hf; destruct f; [cbn in Hf; lia|]; cbn; rewrite H by (cbn in Hf; lia); reflexivity.
+
+Lemma js_lex_lbrack rest ts : js_lex_ok rest ts -> js_lex_ok (91 :: rest) (JtLBrack _ :: ts). Proof. lex_char. Qed.
+Lemma js_lex_rbrack rest ts : js_lex_ok rest ts -> js_lex_ok (93 :: rest) (JtRBrack _ :: ts). Proof. lex_char. Qed.
+Lemma js_lex_lbrace rest ts : js_lex_ok rest ts -> js_lex_ok (123 :: rest) (JtLBrace _ :: ts). Proof. lex_char. Qed.
+Lemma js_lex_rbrace rest ts : js_lex_ok rest ts -> js_lex_ok (125 :: rest) (JtRBrace _ :: ts). Proof. lex_char. Qed.
+Lemma js_lex_comma rest ts : js_lex_ok rest ts -> js_lex_ok (44 :: rest) (JtComma _ :: ts). Proof. lex_char. Qed.
+Lemma js_lex_colon rest ts : js_lex_ok rest ts -> js_lex_ok (58 :: rest) (JtColon _ :: ts). Proof. lex_char. Qed.
+
+Lemma js_starts_app pre rest : js_starts pre (pre ++ rest) = Some rest.
+Proof.
+  unfold js_starts. assert (firstn (length pre) (pre ++ rest) = pre) as ->.
+  { induction pre; cbn; [destruct rest; reflexivity|]. f_equal. assumption. }
+  destruct (list_eq_dec Z.eq_dec pre pre); [|contradiction].
+  f_equal. induction pre; cbn; auto.
+Qed.
+
+Lemma js_lex_null rest ts : js_lex_ok rest ts -> js_lex_ok ([110; 117; 108; 108] ++ rest) (JtNull _ :: ts).
+Proof.
+  intros H f Hf. destruct f; [cbn in Hf; lia|]. cbn [app js_lex]. cbn [Z.eqb Pos.eqb js_is_ws orb].
+  change (117 :: 108 :: 108 :: rest) with ([117; 108; 108] ++ rest). rewrite js_starts_app.
+  rewrite H by (cbn in Hf; lia). reflexivity.
+Qed.
+Lemma js_lex_true rest ts : js_lex_ok rest ts -> js_lex_ok ([116; 114; 117; 101] ++ rest) (JtTrue _ :: ts).
+Proof.
+  intros H f Hf. destruct f; [cbn in Hf; lia|]. cbn [app js_lex]. cbn [Z.eqb Pos.eqb js_is_ws orb].
+  change (114 :: 117 :: 101 :: rest) with ([114; 117; 101] ++ rest). rewrite js_starts_app.
+  rewrite H by (cbn in Hf; lia). reflexivity.
+Qed.
+Lemma js_lex_false rest ts : js_lex_ok rest ts -> js_lex_ok ([102; 97; 108; 115; 101] ++ rest) (JtFalse _ :: ts).
+Proof.
+  intros H f Hf. destruct f; [cbn in Hf; lia|]. cbn [app js_lex]. cbn [Z.eqb Pos.eqb js_is_ws orb].
+  change (97 :: 108 :: 115 :: 101 :: rest) with ([97; 108; 115; 101] ++ rest). rewrite js_starts_app.
+  rewrite H by (cbn in Hf; lia). reflexivity.
+Qed.
+
+(* strings *)
+Lemma js_esc_cp_nonempty cp : (1 <= length (js_esc_cp cp))%nat.
+Proof.
+  unfold js_esc_cp.
+  repeat match goal with |- context [if ?c then _ else _] => destruct c end; cbn; try lia.
+Qed.
+
+Lemma js_esc_len cps : (length cps <= length (concat (map js_esc_cp cps)))%nat.
+Proof. induction cps as [|c t IH]; cbn; [lia|]. rewrite app_length. pose proof (js_esc_cp_nonempty c). lia. Qed.
+
+Lemma js_lex_string cps rest ts :
+  Forall js_scalar cps -> js_lex_ok rest ts ->
+  js_lex_ok (js_quote (js_utf8_of cps) ++ rest) (JtStr _ (js_utf8_of cps) :: ts).
+Proof.
+  intros Hs H f Hf. unfold js_quote in *. rewrite js_sanitize_valid, js_escape_valid in * by assumption.
+  destruct f; [cbn in Hf; lia|]. cbn [app js_lex]. cbn [Z.eqb Pos.eqb js_is_ws orb].
+  rewrite <- app_assoc. cbn [app].
+  cbn [app length] in Hf. rewrite !app_length in Hf. cbn [length] in Hf. pose proof (js_esc_len cps).
+  rewrite js_lex_str_escape by (assumption || lia). cbn [app].
+  rewrite H by lia. reflexivity.
+Qed.
+
+(* numbers *)
+Definition js_numstart (b : Z) : Prop := b = 45 \/ 48 <= b <= 57.
+
+Lemma js_lex_int_tok b t f text r ts :
+  js_numstart b -> js_lex_num (b :: t) = Some (text, true, r) ->
+  js_int_overflow (js_int_of_tok text) = false -> js_lex _ js_fparse f r = Some ts ->
+  js_lex _ js_fparse (S f) (b :: t) = Some (JtInt _ (js_int_of_tok text) :: ts).
+Proof.
+  intros Hb Hn Ho Hr. cbn [js_lex].
+  assert ((b =? 0) = false) as -> by (unfold js_numstart in Hb; lia).
+  assert (js_is_ws b = false) as -> by (unfold js_is_ws, js_numstart in *; lia).
+  assert ((b =? 91) = false) as -> by (unfold js_numstart in Hb; lia).
+  assert ((b =? 93) = false) as -> by (unfold js_numstart in Hb; lia).
+  assert ((b =? 123) = false) as -> by (unfold js_numstart in Hb; lia).
+  assert ((b =? 125) = false) as -> by (unfold js_numstart in Hb; lia).
+  assert ((b =? 44) = false) as -> by (unfold js_numstart in Hb; lia).
+  assert ((b =? 58) = false) as -> by (unfold js_numstart in Hb; lia).
+  assert ((b =? 110) = false) as -> by (unfold js_numstart in Hb; lia).
+  assert ((b =? 116) = false) as -> by (unfold js_numstart in Hb; lia).
+  assert ((b =? 102) = false) as -> by (unfold js_numstart in Hb; lia).
+  assert ((b =? 34) = false) as -> by (unfold js_numstart in Hb; lia).
+  assert ((b =? 45) || js_isdig b = true) as -> by (unfold js_isdig, ns_isdigit, js_numstart in *; lia).
+  rewrite Hn, Ho, Hr. reflexivity.
+Qed.
+
+Lemma js_lex_flt_tok b t f text r ts x :
+  js_numstart b -> js_lex_num (b :: t) = Some (text, false, r) ->
+  js_fparse text = Some x -> js_lex _ js_fparse f r = Some ts ->
+  js_lex _ js_fparse (S f) (b :: t) = Some (JtFlt _ x :: ts).
+Proof.
+  intros Hb Hn Ho Hr. cbn [js_lex].
+  assert ((b =? 0) = false) as -> by (unfold js_numstart in Hb; lia).
+  assert (js_is_ws b = false) as -> by (unfold js_is_ws, js_numstart in *; lia).
+  assert ((b =? 91) = false) as -> by (unfold js_numstart in Hb; lia).
+  assert ((b =? 93) = false) as -> by (unfold js_numstart in Hb; lia).
+  assert ((b =? 123) = false) as -> by (unfold js_numstart in Hb; lia).
+  assert ((b =? 125) = false) as -> by (unfold js_numstart in Hb; lia).
+  assert ((b =? 44) = false) as -> by (unfold js_numstart in Hb; lia).
+  assert ((b =? 58) = false) as -> by (unfold js_numstart in Hb; lia).
+  assert ((b =? 110) = false) as -> by (unfold js_numstart in Hb; lia).
+  assert ((b =? 116) = false) as -> by (unfold js_numstart in Hb; lia).
+  assert ((b =? 102) = false) as -> by (unfold js_numstart in Hb; lia).
+  assert ((b =? 34) = false) as -> by (unfold js_numstart in Hb; lia).
+  assert ((b =? 45) || js_isdig b = true) as -> by (unfold js_isdig, ns_isdigit, js_numstart in *; lia).
+  rewrite Hn, Ho, Hr. reflexivity.
+Qed.
+
+Lemma js_span_digits_app ds : forall rest,
+  forallb ns_isdigit ds = true -> match rest with b :: _ => ns_isdigit b = false | [] => True end ->
+  js_span_digits (ds ++ rest) = (ds, rest).
+Proof.
+  induction ds as [|d t IH]; intros rest Hd Hr; cbn [app js_span_digits].
+  - destruct rest as [|b r]; [reflexivity|]. cbn [js_span_digits]. unfold js_isdig. rewrite Hr. reflexivity.
+  - cbn [forallb] in Hd. apply andb_true_iff in Hd as [H1 H2]. unfold js_isdig. rewrite H1, IH by assumption. reflexivity.
+Qed.
+
+Lemma js_delim_nodigit rest : js_delim rest ->
+  match rest with b :: _ => ns_isdigit b = false /\ (b =? 46) = false /\ ((b =? 101) || (b =? 69)) = false | [] => True end.
+Proof. destruct rest as [|b r]; [auto|]. unfold js_delim, ns_isdigit. intros H. repeat split; lia. Qed.
+
+(* the decimal digits of n >= 0, followed by a delimiter, are one integer token *)
+Lemma js_lex_num_digits n rest : 0 <= n -> js_delim rest ->
+  js_lex_num (ns_dec n ++ rest) = Some (ns_dec n, true, rest) /\
+  js_lex_num (45 :: ns_dec n ++ rest) = Some (45 :: ns_dec n, true, rest) /\
+  ns_val (ns_dec n) = n /\ exists d t, ns_dec n = d :: t /\ 48 <= d <= 57.
+Proof.
+  intros Hn Hd. apply js_delim_nodigit in Hd.
+  assert (forall d t, 48 <= d <= 57 -> ns_dec n = d :: t ->
+          (if d =? 48 then ([48], t ++ rest) else js_span_digits (d :: t ++ rest)) = (d :: t, rest) ->
+          js_lex_num (ns_dec n ++ rest) = Some (ns_dec n, true, rest) /\
+          js_lex_num (45 :: ns_dec n ++ rest) = Some (45 :: ns_dec n, true, rest)) as Hcore.
+  { intros d t Hdr E Hint. rewrite E. unfold js_lex_num. cbn [app].
+    assert ((d =? 45) = false) as -> by lia. cbn [Z.eqb Pos.eqb].
+    assert (negb (js_isdig d) = false) as -> by (unfold js_isdig, ns_isdigit; lia).
+    rewrite Hint.
+    destruct rest as [|b r].
+    - rewrite !app_nil_r. split; reflexivity.
+    - destruct Hd as (H1 & H2 & H3). rewrite H2, H3. rewrite !app_nil_r. split; reflexivity. }
+  destruct (Z.eq_dec n 0) as [->|Hne].
+  - rewrite ns_dec_zero. destruct (Hcore 48 [] ltac:(lia) ns_dec_zero) as [A B].
+    { cbn [Z.eqb Pos.eqb app]. reflexivity. }
+    rewrite ns_dec_zero in A, B. repeat split; try assumption. exists 48, []. split; [reflexivity|lia].
+  - destruct (ns_dec_shape n ltac:(lia)) as (d & ds & E & Hdr & Hds & Hv & _).
+    destruct (Hcore d ds ltac:(lia) E) as [A B].
+    { assert ((d =? 48) = false) as -> by lia.
+      change (d :: ds ++ rest) with ((d :: ds) ++ rest). apply js_span_digits_app.
+      - cbn [forallb]. rewrite Hds, andb_true_r. apply ns_isdigit_iff. lia.
+      - destruct rest; [auto|]. apply Hd. }
+    repeat split; try assumption.
+    + rewrite E. unfold ns_val. cbn [fold_left]. rewrite Z.mul_0_l, Z.add_0_l. exact Hv.
+    + exists d, ds. split; [assumption|lia].
+Qed.
+
+Lemma js_int_bound_no_overflow z : Z.abs z <= 2 ^ 53 -> js_int_overflow z = false.
+Proof.
+  intros H. unfold js_int_overflow. assert (2 ^ 53 < 2 ^ 1024 - 2 ^ 970) by (vm_compute; reflexivity). lia.
+Qed.
+
+Lemma js_lex_int z rest ts :
+  Z.abs z <= 2 ^ 53 -> js_delim rest -> js_lex_ok rest ts -> js_lex_ok (js_int z ++ rest) (JtInt _ z :: ts).
+Proof.
+  intros Hz Hd H f Hf. destruct f; [cbn in Hf; lia|]. unfold js_int in *.
+  destruct (z <? 0) eqn:Ez.
+  - destruct (js_lex_num_digits (- z) rest ltac:(lia) Hd) as (_ & B & Hv & _).
+    cbn [app] in *.
+    assert (js_int_of_tok (45 :: ns_dec (- z)) = z) as Hi.
+    { unfold js_int_of_tok. cbn [Z.eqb Pos.eqb]. rewrite Hv. lia. }
+    rewrite (js_lex_int_tok 45 (ns_dec (- z) ++ rest) f _ _ ts (or_introl eq_refl) B); rewrite ?Hi.
+    + reflexivity.
+    + apply js_int_bound_no_overflow; assumption.
+    + apply H. cbn [length] in Hf. rewrite app_length in Hf. lia.
+  - destruct (js_lex_num_digits z rest ltac:(lia) Hd) as (A & _ & Hv & d & t & E & Hdr).
+    assert (js_int_of_tok (ns_dec z) = z) as Hi.
+    { unfold js_int_of_tok. rewrite E. assert ((d =? 45) = false) as -> by lia. rewrite <- E. exact Hv. }
+    rewrite E in A, Hf |- *. cbn [app] in *.
+    rewrite (js_lex_int_tok d (t ++ rest) f _ _ ts (or_intror Hdr) A); rewrite <- ?E, ?Hi.
+    + reflexivity.
+    + apply js_int_bound_no_overflow; assumption.
+    + apply H. cbn [length] in Hf. rewrite app_length in Hf. lia.
+Qed.
+
+Lemma js_lex_float x rest ts :
+  js_delim rest -> js_lex_ok rest ts -> js_lex_ok (js_fprint x ++ rest) (JtFlt _ x :: ts).
+Proof.
+  intros Hd H f Hf. destruct f; [cbn in Hf; lia|].
+  destruct (js_fprint_ascii x) as (b & t & E & Hb & _).
+  pose proof (js_fprint_token x rest Hd) as Hn. rewrite E in Hn, Hf |- *. cbn [app] in *.
+  rewrite (js_lex_flt_tok b (t ++ rest) f _ _ ts x Hb Hn); [reflexivity|rewrite <- E; apply js_fparse_fprint|].
+  apply H. cbn [length] in Hf. rewrite app_length in Hf. lia.
+Qed.
+
 End JsRt.
